@@ -1,0 +1,27 @@
+//go:build verif
+
+// Copyright 2025 NVIDIA CORPORATION
+// SPDX-License-Identifier: Apache-2.0
+
+package scheduler
+
+import (
+	schedcache "github.com/NVIDIA/KAI-scheduler/pkg/scheduler/cache"
+	"github.com/NVIDIA/KAI-scheduler/pkg/scheduler/conf"
+)
+
+// NewSchedulerForSim builds a Scheduler around an already constructed cache (simulation harness only).
+func NewSchedulerForSim(cache schedcache.Cache, config *conf.SchedulerConfiguration,
+	params *conf.SchedulerParams) *Scheduler {
+	return &Scheduler{
+		cache:           cache,
+		config:          config,
+		schedulerParams: params,
+		schedulePeriod:  params.SchedulePeriod,
+	}
+}
+
+// RunOnceForSim runs exactly one real scheduling cycle.
+func (s *Scheduler) RunOnceForSim() {
+	s.runOnce()
+}
